@@ -29,6 +29,10 @@ func TestCheck(t *testing.T) {
 		}
 		return StoreSpec{E: []Entry{{L: a, C: u(i, 0)}, {L: b, C: u(i, 1)}}}
 	}
+	batch3 := func(i int) StoreSpec {
+		// frames: single, batch of 2, single - the batch overflows a lazy buffer of 1 and a frame follows it
+		return StoreSpec{E: []Entry{{L: 0, C: u(i, 0)}, {L: 1, C: u(i, 1)}, {L: 2, C: u(i, 2)}, {L: 2, C: u(i, 3)}}, F: []int{0, 2, 0}}
+	}
 	hang := func(i, at int) StoreSpec {
 		return StoreSpec{E: []Entry{{L: i % 3, C: u(i, 0)}}[:at], Fault: "hang", At: at}
 	}
@@ -37,6 +41,9 @@ func TestCheck(t *testing.T) {
 		{Case{Stores: []StoreSpec{ok2(0), recvFail(1, 0)}, Lazy: true, Buf: 1, Abort: true}, 2},
 		{Case{Stores: []StoreSpec{ok2(0), hang(1, 1)}, Lazy: true, Buf: 1, Timeout: true}, 1},
 		{Case{Stores: []StoreSpec{ok2(0), {Fault: "open"}}, Lazy: false}, 2},
+		// a healthy store sending a batch frame larger than the free lazy buffer, next to a store that hangs:
+		// the healthy store's receiver waits for buffer slots while the reader is stalled
+		{Case{Stores: []StoreSpec{batch3(0), hang(1, 0)}, Lazy: true, Buf: 1, Timeout: true}, 2},
 	}
 	if r.Thorough() {
 		ps = append(ps,
